@@ -1215,7 +1215,7 @@ def judge(rt, td, real, props, conv, sv_init, expect_flushes):
         expect_flushes = ref_depth
     got = outcome_desc(real)
     ok = True
-    if ("c01" in props) or ("c02" in props) or ("c07v" in props):
+    if ("c01" in props) or ("c02" in props) or ("c07v" in props) or ("c06v" in props):
         if got[0] != exp[0]:
             return rec.fail("outcome kind differs: real %r, sequential reference %r" % (got, exp))
         if got[1] != exp[1]:
